@@ -26,3 +26,8 @@ pub assume_specification<T: Ord>[ std::cmp::min::<T> ](a: T, b: T) -> (r: T)
     ensures T::obeys_cmp_spec() ==> r == (if a.cmp_spec(&b) == std::cmp::Ordering::Greater { b } else { a });
 pub assume_specification<T: Ord>[ std::cmp::max::<T> ](a: T, b: T) -> (r: T)
     ensures T::obeys_cmp_spec() ==> r == (if b.cmp_spec(&a) == std::cmp::Ordering::Less { a } else { b });
+/// Vec::dedup (assumed std contract, deliberately partial): removes consecutive repeated elements - never grows, keeps
+/// the first element.  A change that starts using it is analysed against this contract instead of being unanalysable.
+pub assume_specification<T: PartialEq, A: std::alloc::Allocator>[ Vec::<T, A>::dedup ](v: &mut Vec<T, A>)
+    ensures final(v)@.len() <= old(v)@.len(), old(v)@.len() > 0 ==> (final(v)@.len() > 0 && final(v)@[0] == old(v)@[0]),
+        forall|j: int| 0 <= j < final(v)@.len() ==> old(v)@.contains(#[trigger] final(v)@[j]);
